@@ -283,7 +283,7 @@ func VerifC08_OneStep() { vOneStep(false) }
 func VerifC10_HandlerOneStep() { vOneStep(true) }
 
 func vOneStep(nopanic bool) {
-	verif.Bound("C08", "one request of type in {10,12,20,22,30,32,60,62,64,66,68,70,255,11,99}; bearer token absent / this session / another session / missing 'Bearer ' prefix / unknown; this session in one of 9 profiles (none, fresh, after DI 10, after TO0 20, after TO1 30, after TO2 60, after TO2 64 (tunnel keys), after 66, after 68); another fully populated TO2 session for isolation; message bodies well-formed with symbolic values, nonces either echoing the session's or arbitrary; model key-exchange session whose Decrypt needs tunnel keys")
+	verif.Bound("C08", "one request of type in {10,12,20,22,30,32,60,62,64,66,68,70,255,11,99}; bearer token absent / this session / another session / missing 'Bearer ' prefix / unknown; this session in one of 9 profiles (none, fresh, after DI 10, after TO0 20, after TO1 30, after TO2 60, after TO2 64 (tunnel keys), after 66, after 68); another fully populated TO2 session for isolation; message bodies well-formed with symbolic values, nonces either echoing the session's or arbitrary; model key-exchange session whose Decrypt needs tunnel keys; HTTP Content-Length = actual, -1 (unknown) or 70000 (above the limit)")
 	c := vC08Setup()
 	w := c.w
 	msgType := vC08Types[verif.Choose("msgtype", len(vC08Types))]
@@ -319,8 +319,18 @@ func vOneStep(nopanic bool) {
 	beforeA, beforeB := vSnapOf(w, "TA"), vSnapOf(w, "TB")
 	beforeReq := vSnapOf(w, reqTok)
 
+	// HTTP framing of the request: declared length, or a length the handler must refuse
+	// (unknown/chunked, or above the limit) - a refusal is an error like any other
+	clen := int64(len(body))
+	framing := verif.Choose("framing", 3)
+	switch framing {
+	case 1:
+		clen = -1
+	case 2:
+		clen = 70000
+	}
 	req := &nethttp.Request{Method: "POST", URL: &url.URL{Path: "/fdo/101/msg/" + strconv.Itoa(msgType)}, Header: hdr,
-		Body: io.NopCloser(bytes.NewReader(body)), ContentLength: int64(len(body))}
+		Body: io.NopCloser(bytes.NewReader(body)), ContentLength: clen}
 	rec := &vRecorder{hdr: nethttp.Header{}}
 	panicked := vRun(nopanic, func() { c.h.ServeHTTP(rec, req) })
 	if panicked {
@@ -330,6 +340,13 @@ func vOneStep(nopanic bool) {
 		return
 	}
 	respType, _ := strconv.Atoi(rec.hdr.Get("Message-Type"))
+	if framing != 0 && msgType != 11 && msgType != 99 && msgType != 255 {
+		verif.Assert(respType == 255, "a request without a declared length or above the size limit is answered with an error message")
+		verif.Assert(w.count("AddVoucher")+w.count("SetRVBlob")+w.count("ReplaceVoucher")+w.count("HandleInfo")+w.count("ProduceInfo") == 0, "and has no effect")
+		if w.count("NewToken") > 0 {
+			verif.Assert(w.invalidated("T1"), "a token minted for a refused protocol start is invalidated at once")
+		}
+	}
 	isStart := msgType == 10 || msgType == 20 || msgType == 30 || msgType == 60
 	validTok := reqSess != nil
 
@@ -388,8 +405,12 @@ func vOneStep(nopanic bool) {
 	if respType == 13 || respType == 23 || respType == 33 || respType == 71 {
 		verif.Assert(validTok && w.invalidated(reqTok), "after a protocol's final message the token is invalidated")
 	}
-	if respType == 255 && validTok && msgType != 11 && msgType != 99 {
+	if respType == 255 && validTok && msgType != 11 && msgType != 99 && !isStart {
 		verif.Assert(w.invalidated(reqTok), "after an error while processing a session's message the token is invalidated")
+	}
+	if respType == 255 && isStart && w.count("NewToken") > 0 {
+		// a protocol start opens a new session whatever token it carried: that new session is the one that ends
+		verif.Assert(w.invalidated("T1"), "after an error in a protocol's first message the token minted for it is invalidated")
 	}
 	if msgType == 255 && validTok {
 		verif.Assert(w.invalidated(reqTok), "an error message from the peer invalidates the token")
